@@ -311,7 +311,8 @@ pub fn write_conference_create_request(user_data: &[u8]) ->RdpResult<Vec<u8>> {
     let mut result = Cursor::new(vec![]);
     per::write_choice(0, &mut result)?;
     per::write_object_identifier(&T124_02_98_OID, &mut result)?;
-    per::write_length(user_data.len() as u16 + 14)?.write(&mut result)?;
+    // 12 bytes of fixed fields + the length determinant of the user data (1 or 2 bytes)
+    per::write_length(user_data.len() as u16 + if user_data.len() > 0x7f { 14 } else { 13 })?.write(&mut result)?;
     per::write_choice(0, &mut result)?;
     per::write_selection(0x08, &mut result)?;
     per::write_numeric_string(b"1", 1, &mut result)?;
